@@ -92,6 +92,9 @@ pub broadcast axiom fn axiom_display_usize(n: &usize, r: String)
 pub broadcast axiom fn axiom_display_u128(n: &u128, r: String)
     requires #[trigger] vstd::string::to_string_from_display_ensures::<u128>(n, r),
     ensures r@ == decimal(*n as nat);
+pub broadcast axiom fn axiom_display_i32(n: &i32, r: String)
+    requires #[trigger] vstd::string::to_string_from_display_ensures::<i32>(n, r), *n >= 0,
+    ensures r@ == decimal(*n as nat);
 pub broadcast axiom fn axiom_decimal_digits(n: nat, i: int)
     requires 0 <= i < decimal(n).len(),
     ensures is_digit(#[trigger] decimal(n)[i]);
